@@ -783,5 +783,68 @@ func genApi(g *genCtx) {
 				}
 			}
 		}
+		// HISTORIES: 3…7 calls on one connection, each with its own outcome — conforming answer, error code (with / without
+		// body), busy then final, a reply to another command first, garbage first, a lost reply (in a session this ends the
+		// call with an error), a truncated body. Every call must behave as it would on a fresh connection: the request
+		// carries the caller's arguments of THAT call, the result comes from ITS reply, an earlier failure leaves nothing
+		// behind (C06, C07, C10, C11, C17).
+		nh := 12
+		if ki != 0 && ki != 3 {
+			nh = 4
+		}
+		if g.thorough() {
+			nh *= 25
+		}
+		for h := 0; h < nh; h++ {
+			n := 3 + g.rng.Intn(5)
+			ops := head(k.kind, k.sp, inbound())
+			for j := 0; j < n; j++ {
+				spec := pool[g.rng.Intn(len(pool))]
+				if h%3 == 0 && j > 0 && g.rng.Intn(2) == 0 {
+					// favour the pairs that share state by design: the two privilege-level calls, the SDR reads
+					for _, cand := range pool {
+						if (cand.name == "GetSessionPrivilegeLevel" || cand.name == "SetSessionPrivilegeLevel") && g.rng.Intn(2) == 0 {
+							spec = cand
+						}
+					}
+				}
+				if spec.name == "Close" && j != n-1 {
+					j--
+					continue
+				}
+				var items []string
+				cc := nonzero[g.rng.Intn(len(nonzero))]
+				switch g.rng.Intn(9) {
+				case 0, 1:
+					items = []string{rp.final(spec, 0, validBody(spec))}
+				case 2:
+					items = []string{rp.final(spec, cc, nil)}
+				case 3:
+					items = []string{rp.final(spec, cc, validBody(spec))}
+				case 4:
+					items = []string{rp.final(spec, 0xC0, nil), rp.final(spec, 0, validBody(spec))}
+				case 5:
+					items = []string{rp.other(spec, validBody(spec)), rp.final(spec, 0, validBody(spec))}
+				case 6:
+					items = []string{"R:" + hx(rbytes(g.rng, 1+g.rng.Intn(40))), rp.final(spec, 0, validBody(spec))}
+				case 7:
+					items = []string{"L"}
+					if k.sp == nil {
+						items = append(items, rp.final(spec, 0, validBody(spec)))
+					}
+				default:
+					v := validBody(spec)
+					if len(v) > 0 {
+						v = v[:g.rng.Intn(len(v))]
+					}
+					items = []string{rp.final(spec, 0, v)}
+				}
+				if j > 0 {
+					ops = append(ops, "/")
+				}
+				ops = append(ops, callArgs(spec, pick(spec), items)...)
+			}
+			g.emit(Op{Class: 'M', NonTrivial: true, Kind: "api", Args: ops})
+		}
 	}
 }
